@@ -1,7 +1,8 @@
 /-
   Y0.Model.IdcStar — executable model of `src/y0/algorithm/identify/idc_star.py` (IDC*) on top of the ID* model,
   the counterfactual-graph model and the d-separation model of the `sep` family (`MG.dSeparated`, the code after
-  `fix:` 387f69f).
+  `fix:` 387f69f).  Models idc_star.py after `fix:` b76144c (re-associated keys sorted) and `fix:` 1834c39 (the rule-2 test
+  of line 4 conditions on the other conditions: `rule2Applies … others`, `firstExchangeableIn`).
 
   Order parameters (Python iterates over sets there; all theorems hold for every choice, the harness drives the real
   code through the same orders):
